@@ -56,8 +56,35 @@ def label_too_long(name: str) -> bool:
     return any(len(l.encode('utf-8')) > 63 for l in name.rstrip('.').split('.'))
 
 
+def gen_exact(rng: random.Random) -> dict:
+    """One TXT record (optionally behind a question, optionally followed by a small record) whose rdata is sized so that the first
+    datagram comes out one octet under, exactly at, or one octet over a size limit (1460 / 8966)."""
+    limit = rng.choice([1460, 8966, 8966])
+    delta = rng.choice([-1, 0, 0, 1])
+    if limit == 8966 and delta > 0:
+        delta = 0            # (an entry that fits no datagram at all is outside the property's domain)
+    owner = rng.choice(['big._http._tcp.local.', 'a.local.', 'Kitchen Printer._ipp._tcp.local.'])
+    with_q = rng.random() < 0.4
+    qname = rng.choice(['_http._tcp.local.', 'x.local.'])
+    size = 12 + (len(qname.encode()) + 1 + 4 if with_q else 0) + len(owner.encode()) + 1 + 10
+    # (no compression between the two names: different suffixes are chosen when a question is present)
+    if with_q:
+        owner = 'big.example.'
+        size = 12 + len(qname.encode()) + 1 + 4 + len(owner.encode()) + 1 + 10
+    n = limit + delta - size
+    is_query = with_q and rng.random() < 0.5
+    msg: Dict[str, Any] = {'multicast': rng.random() < 0.7, 'query': is_query, 'id': rng.choice([0, 4660]), 'now': 0,
+                           'qs': [{'name': qname, 'type': 12, 'cls': 1}] if with_q else [], 'an': [], 'ns': [], 'ar': []}
+    msg['an'].append({'kind': 'TXT', 'name': owner, 'ttl': 120, 'cls': 1, 'rd': rng.randbytes(max(0, n)).hex()})
+    if rng.random() < 0.5:
+        msg['an'].append({'kind': 'A', 'name': 'a.local.', 'ttl': 120, 'cls': 1, 'rd': '0a000001'})
+    return msg
+
+
 def gen_message(rng: random.Random, big: bool = False, allow_long: bool = True) -> dict:
     """A message description: JSON-able, independent of library objects."""
+    if rng.random() < 0.03:
+        return gen_exact(rng)
     allow_long = allow_long and rng.random() < 0.12       # labels over 63 bytes only in some messages
     suffixes: List[str] = []
     for _ in range(rng.choice([1, 2, 3])):
